@@ -32,7 +32,7 @@ class Check(FormulaCheck):
             'whitespace at token boundaries, separator style or cell-reference case, or one slot pattern (all 2^n present/absent patterns, n<=6, x 3 separators), '
             'or one array literal. non-trivial = oracle evaluated on an accepted formula (rejected slot patterns are counted separately); distinct = distinct formula text.')
     ASSUMPTIONS = ('tokens are the generator\'s atoms (numeric literal, reference, name, string, operator, NAME( ); no whitespace inside them, none leading/trailing',
-                   'literals up to 60 digits; the slot clause is conditional on acceptance; only cell references are claimed case-insensitive',
+                   'literals up to 60 digits at random, and of 1-2 digits around the int<->text limit of the interpreter; the slot clause is conditional on acceptance; only cell references are claimed case-insensitive',
                    'arrays of three rows or with rows of length 1 are outside the statement')
 
     def plan(self, tier, seed):
